@@ -889,21 +889,27 @@ func run(r *vrt.Run) {
 		}
 		runCase(r, i, "seq", sh)
 	}
-	r.Require("parts_p1", 5)
-	r.Require("parts_p16", 5)
-	r.Require("single_account", 1)
-	r.Require("stale_roots", 20)
-	r.Require("boundary_accounts", 5)
-	r.Require("dangling_slots", 20)
-	r.Require("dangling_emptypart", 1)
-	r.Require("dangling_before", 1)
-	r.Require("dangling_between", 1)
-	r.Require("dangling_after", 1)
-	r.Require("scheme_path", 10)
-	r.Require("scheme_hash", 10)
-	r.Require("cases_with_flush", 2)
-	r.Require("reopen_child", 1)
-	r.Require("wrong_root_random", 1)
+	need := func(name string, min int64) { // coverage obligations, scaled down for the (smaller) race workload
+		if r.Race() {
+			min = max(1, min/5)
+		}
+		r.Require(name, min)
+	}
+	need("parts_p1", 5)
+	need("parts_p16", 5)
+	need("single_account", 1)
+	need("stale_roots", 20)
+	need("boundary_accounts", 5)
+	need("dangling_slots", 20)
+	need("dangling_emptypart", 1)
+	need("dangling_before", 1)
+	need("dangling_between", 1)
+	need("dangling_after", 1)
+	need("scheme_path", 10)
+	need("scheme_hash", 10)
+	need("cases_with_flush", 2)
+	need("reopen_child", 1)
+	need("wrong_root_random", 1)
 	r.Assume("reference trie refmpt and refrlp/flatstate encoders (cross-checked against go-ethereum's trie by lib/flatstate's test and bld-B1)")
 	r.Assume("precondition of GenerateTrie as at its call site (snap syncer resets the trie-node key space first): no trie nodes in the database before the run")
 }
